@@ -819,7 +819,8 @@ fn sync_main(tier: vh::Tier) -> i32 {
             // history plans: one exploration at the highest bound (it contains the lower ones);
             // the 2x2 thread plans in the thorough tier only
             if name.contains("|2x1") || tier == vh::Tier::Thorough {
-                jobs.push((pi, if tier == vh::Tier::Quick { 2 } else { 3 }));
+                // (2x3 after a preamble: bound 2 - at bound 3 the 50 preambles alone exceed the tier's time)
+                jobs.push((pi, if tier == vh::Tier::Quick || name.ends_with("|2x3") { 2 } else { 3 }));
             }
             continue;
         }
